@@ -17,6 +17,8 @@ def check(ctx):
     core3.tmodule_control_table(ctx, "C11", want_enter=True, want_mirror=False)
     core3.mgr_rejections(ctx, "C11")
     core.cg_priority_edges(ctx, "C11")
+    core.cg_relation_lifting(ctx, "C11")
+    core.cg_priority_passthrough(ctx, "C11")
     core2.mgr_ready_dependencies(ctx, "C11")
 
 
